@@ -122,25 +122,33 @@ impl Skel {
 // ------------------------------------------------------------------ the model's lookup (for the generator only)
 /// The declaration a reference named `name` denotes under the naming `names` (0: none):
 /// Rename!Resolve.  Used only to generate fully resolved projects; the verdicts are TLC's.
-fn resolve(sk: &Skel, names: &[String], site: usize, mode: &str, name: &str) -> usize {
+fn resolve(sk: &Skel, names: &[String], site: usize, mode: &str, ns: char, name: &str) -> usize {
     if mode == "mem" {
-        return (1..=sk.decls.len()).find(|&d| sk.de(d).scope == site && names[d - 1] == name).unwrap_or(0);
+        return (1..=sk.decls.len()).find(|&d| sk.de(d).scope == site && ns_d(&sk.de(d).kind) == ns && names[d - 1] == name).unwrap_or(0);
     }
     for s in sk.chain(site) {
-        if let Some(d) = (1..=sk.decls.len()).find(|&d| sk.de(d).scope == s && names[d - 1] == name) {
+        if let Some(d) = (1..=sk.decls.len()).find(|&d| sk.de(d).scope == s && ns_d(&sk.de(d).kind) == ns && names[d - 1] == name) {
             return d;
         }
     }
     0
 }
+/// Rename!NsD / Rename!NsR: type names and all other names live in two name spaces
+fn ns_d(kind: &str) -> char {
+    if kind == "struct" || kind == "fb" { 't' } else { 'v' }
+}
+fn ns_r(role: &str) -> char {
+    if role == "type" || role == "qtype" || role == "base" { 't' } else { 'v' }
+}
 fn well_formed(sk: &Skel, names: &[String]) -> bool {
     let mut seen = BTreeSet::new();
-    (1..=sk.decls.len()).all(|d| seen.insert((sk.de(d).scope, names[d - 1].clone())))
+    (1..=sk.decls.len()).all(|d| seen.insert((sk.de(d).scope, ns_d(&sk.de(d).kind), names[d - 1].clone())))
 }
 fn intended(sk: &Skel, names: &[String]) -> bool {
     (1..=sk.refs.len()).all(|r| {
         let x = sk.re(r);
-        resolve(sk, names, x.site, &x.mode, &names[x.tgt - 1]) == x.tgt
+        // a reference and the declaration it is meant for are of one name space (a skeleton invariant)
+        ns_r(&x.role) == ns_d(&sk.de(x.tgt).kind) && resolve(sk, names, x.site, &x.mode, ns_r(&x.role), &names[x.tgt - 1]) == x.tgt
     })
 }
 
@@ -428,7 +436,9 @@ const INVALID: [&str; 9] = ["1x", "a-b", "a b", "", "x$y", "n\u{e9}", "a__b", "a
 /// the name of another declaration somewhere in the project (PROGRAM P and METHOD P, FUNCTION
 /// F and FUNCTION Ns.F, FUNCTION F and a variable F).
 fn homonyms(sk: &Skel, names: &[String]) -> bool {
-    (1..=sk.decls.len()).filter(|&d| sk.de(d).owns != 0).any(|d| (1..=sk.decls.len()).any(|e| d != e && names[d - 1] == names[e - 1]))
+    (1..=sk.decls.len()).filter(|&d| sk.de(d).owns != 0).any(|d| {
+        (1..=sk.decls.len()).any(|e| d != e && names[d - 1] == names[e - 1] && !(sk.de(d).kind == "struct" && sk.de(e).owns == 0))
+    })
 }
 
 fn random_names(sk: &Skel, rng: &mut StdRng, allow_homonyms: bool) -> Option<Vec<String>> {
@@ -452,6 +462,18 @@ fn random_names(sk: &Skel, rng: &mut StdRng, allow_homonyms: bool) -> Option<Vec
                 break;
             }
             names.push(free[rng.gen_range(0..free.len())].to_string());
+        }
+        // a variable spelled like its own structure type (`limits : Limits`), a field like the type of
+        // another structure: legal, and the two name spaces must be kept apart by every lookup
+        if ok {
+            for d in 1..=sk.decls.len() {
+                if sk.de(d).owns == 0 && !sk.de(d).ty.is_empty() && rng.gen_range(0..4) == 0 {
+                    let t = sk.re(*sk.de(d).ty.last().unwrap()).tgt;
+                    if sk.de(t).kind == "struct" && !(1..=sk.decls.len()).any(|e| e != d && sk.de(e).scope == sk.de(d).scope && ns_d(&sk.de(e).kind) == 'v' && names[e - 1] == names[t - 1]) {
+                        names[d - 1] = names[t - 1].clone();
+                    }
+                }
+            }
         }
         if ok && well_formed(sk, &names) && intended(sk, &names) && (allow_homonyms || !homonyms(sk, &names)) {
             return Some(names);
